@@ -52,12 +52,11 @@ func newRegistry() *registry {
 // packet type and namespace.
 func (r *registry) MapExtension(pktType PacketType, name xml.Name, extension MsgExtension) {
 	key := registryKey{pktType, name.Space}
-	r.msgTypesLock.RLock()
-	store := r.msgTypes[key]
-	r.msgTypesLock.RUnlock()
-
+	// look the table up under the write lock: read under the read lock first, two concurrent
+	// registrations in a new namespace each made a table of their own and one was lost
 	r.msgTypesLock.Lock()
 	defer r.msgTypesLock.Unlock()
+	store := r.msgTypes[key]
 	if store == nil {
 		store = make(map[string]reflect.Type)
 	}
